@@ -108,18 +108,24 @@ _ENUM = []
 
 def c16_enumerated():
     """Systematic block at the start of the thorough tier: every ordering of L distinct losses
-    for L <= 5, every max_patience 0..L (data loop), max_epochs/steps in {L-1, L, L+1}, both
-    return_best values, both loops. (A supplement to the seeded search, not a replacement.)"""
+    for L <= 7 (the property's stated range), every max_patience 0..L (data loop), max_epochs /
+    steps in {L, L+1} (and L-1 for L <= 5), both return_best values, both loops. A run with
+    max_epochs = m < L only ever sees the first m losses, and the loops compare losses only with
+    each other, so it behaves as the rank-compressed ordering of length m with max_epochs = m:
+    with m in {L, L+1} for every L <= 7 the block covers every (ordering, max_patience,
+    max_epochs 0..L+1, return_best) of the stated range up to that equivalence.
+    (A supplement to the seeded search, not a replacement.)"""
     if _ENUM:
         return _ENUM
     from itertools import permutations
 
-    for loop in ("vi", "data"):
-        for L in range(0, 6):
+    for L in range(0, 8):
+        for loop in ("vi", "data"):
             for perm in permutations(range(L)):
                 pats = [None] if loop == "vi" else list(range(0, L + 1))
                 for pat in pats:
-                    for m in sorted({max(L - 1, 0), L, L + 1}):
+                    ms = {L, L + 1} | ({max(L - 1, 0)} if L <= 5 else set())
+                    for m in sorted(ms):
                         for rb in (True, False):
                             _ENUM.append((loop, L, perm, pat, m, rb))
     return _ENUM
